@@ -12,6 +12,9 @@ Property theorems only.
                                 (so trailing "\n", 17 chars, 1 char, non-ASCII, invalid UTF-8 are all covered);
   * `admitted_only_valid`, `valid_admitted`, `invalid_never_admitted` : the offline login path admits exactly the
                                 valid usernames;
+  * `keyed_admitted_only_valid`, `keyed_valid_admitted`, `keyed_invalid_name_first` : the same with a signed
+                                profile key (valid / expired / bad signature / absent) in the login packet: no key
+                                state admits an invalid name, the name is judged before the key;
   * `offline_identity`        : an offline-mode player (no plugin replaced the profile) is announced to the client
                                 under the name it sent and vanilla's offline UUID of that name, in every
                                 forwarding mode;
@@ -98,6 +101,37 @@ theorem invalid_never_admitted (fwdNone : Bool) (ov : Option Profile) (u : Bytes
   split
   · exact .inl rfl
   · rw [if_pos (by simp [hok])]; exact .inr rfl
+
+/-! the same with a signed profile key attached to the login start packet (protocols 1.19–1.19.2):
+    no key state lets an invalid username through, and a valid/absent key does not block a valid one -/
+theorem keyed_admitted_only_valid (key : KeyState) (fwdNone : Bool) (ov : Option Profile) (u id nm be : Bytes)
+    (h : offlineLoginKeyed key fwdNone ov u = .success id nm be) : validUsername u := by
+  unfold offlineLoginKeyed at h
+  cases hl : offlineLogin fwdNone ov u with
+  | success a b c => exact admitted_only_valid fwdNone ov u a b c hl
+  | closed => rw [hl] at h; cases h
+  | invalidName => rw [hl] at h; cases h
+  | badKey => rw [hl] at h; cases h
+
+theorem keyed_valid_admitted (key : KeyState) (hk : key = .absent ∨ key = .valid) (fwdNone : Bool)
+    (ov : Option Profile) (u : Bytes) (h : validUsername u) :
+    offlineLoginKeyed key fwdNone ov u = offlineLogin fwdNone ov u
+    ∧ ∃ id nm be, offlineLoginKeyed key fwdNone ov u = .success id nm be := by
+  obtain ⟨id, nm, be, hl⟩ := valid_admitted fwdNone ov u h
+  have : offlineLoginKeyed key fwdNone ov u = .success id nm be := by
+    unfold offlineLoginKeyed
+    rw [hl]
+    rcases hk with rfl | rfl <;> rfl
+  exact ⟨by rw [this, hl], id, nm, be, this⟩
+
+/-- the username is judged before the key: an invalid name is refused as such, whatever the key -/
+theorem keyed_invalid_name_first (key : KeyState) (fwdNone : Bool) (ov : Option Profile) (u : Bytes)
+    (h : ¬ validUsername u) :
+    offlineLoginKeyed key fwdNone ov u = .closed ∨ offlineLoginKeyed key fwdNone ov u = .invalidName := by
+  unfold offlineLoginKeyed
+  rcases invalid_never_admitted fwdNone ov u h with hl | hl <;> rw [hl]
+  · exact .inl rfl
+  · exact .inr rfl
 
 /-- an offline-mode player keeps its name and gets vanilla's offline UUID, in every forwarding mode -/
 theorem offline_identity (fwdNone : Bool) (u id nm be : Bytes)
